@@ -3,6 +3,26 @@
 import json, sys
 ALL = [f"C{i:02d}" for i in range(1, 21)]
 CLAIMED = {
+ "C01": dict(
+   technique="type-directed program generation + corpus token mutation (proptest choice tapes), filtered by the implementation's own accept verdict; stuck-state classification of fuel-bounded runs on adversarial inputs",
+   text="Exploration. Generated core programs, every repository executable and its still-accepted token mutants are run with the interpreter on six stdin contents (empty, lines, numbers incl. out of range, a 70 kB line, invalid UTF-8, generated) and two argument vectors under a fuel bound; any way of ending other than exit / return / fuel / the division trap / a legacy-stdio host failure is a stuck state. Soundness beyond the generated core and the corpus neighbourhood is not established.",
+   note="trusted base: classification of panic messages in drive.rs; fuel bound 200k/50k steps; the generator (harness/src/core)",
+   ref="§3 C01"),
+ "C02": dict(
+   technique="differential testing against an independent reference CK machine (R-sem) and host model on generated typed programs, under several meaning-preserving printings",
+   text="Exploration. Each generated core program (with effects placed in thunks, arguments, arms and bindees) is printed under three style combinations and run by the real pipeline on a generated stdin; stdout bytes and exit code / trap must equal those of an independent CBPV CK machine running the AST with a host-operation model. Agreement outside the generated core language is not established.",
+   note="trusted base: R-sem (core/eval.rs), H-model (hmodel.rs), printer (core/print.rs); fuel-bounded on both sides",
+   ref="§3 C02"),
+ "C18": dict(
+   technique="generated and targeted accepted programs pushed through lower/render/emit under panic capture, followed by an independent re-validation of the produced SPSLow tree, assembly arena and AMD64 text",
+   text="Exploration. Every accepted executable from the generator, 12 targeted shapes and repository executables (plus accepted mutants) must lower, render and emit without an internal error, and the produced IR must satisfy its stated invariants as re-derived by the harness's own traversal (closed root, no implicit capture, unique labels, no shared node, stack lets exactly at coproduct matches, layouts, defined jump targets/symbols, AMD64 labels defined or extern). Known open finding F12 (catch-all / nested constructor arms) is tolerated by exact signature.",
+   note="trusted base: harness validators in props/c18.rs; LLVM text is only produced `where supported` (LlvmUnsupportedLocal otherwise)",
+   ref="§3 C18"),
+ "C19": dict(
+   technique="translation validation by differential execution: an independent first-order SPS reference machine (M-sps) runs the real SpsLowProgram and is compared with the interpreter on generated programs",
+   text="Exploration. For generated core programs the first-order stack-passing program produced by the real lowering is executed by an independent machine written from the documented SPSLow semantics (blocks see only their label, explicit closure/continuation packages, tag dispatch by index, physical product layouts, host model) and must reproduce the interpreter's stdout and exit code / trap. Stops at SPSLow.",
+   note="trusted base: M-sps (harness/src/sps.rs), H-model; programs whose lowering hits known finding F12 are discarded and counted",
+   ref="§3 C19"),
  "C10": dict(
    technique="grammar-directed generation + token-level mutation of the corpus + raw token/byte soup (proptest, choice tapes); totality and location-validity predicate; subprocess agreement with the real CLI",
    text="Exploration. Generated syntactically valid but ill-formed terms over every grammar production (extreme literals, arbitrary metadata), token mutations of every repository source and raw token/byte soup are pushed through parse, directives, desugar, resolve, check and diagnostic rendering; every case must return a verdict or an error value without unwinding, and every location mentioned must lie in its file. Shrunk earlier findings are replayed first. Bounded nesting depth; absence of panics beyond the explored inputs is not established.",
